@@ -129,30 +129,43 @@ def label_of(cfg):
     return ','.join(dev) or 'default'
 
 
+CORE_T = CORE + ('e3', 'rst', 'other', 'mapdesc', 'C')
+
+
 def bounds(tier):
-    return (1, 2) if tier == 'quick' else (2, 3)
+    """(d over all dimensions, d over the core dimensions, core dimensions, d of the other dimensions when -w deviates)"""
+    if tier == 'quick':
+        return 2, 2, (), 0
+    return 2, 3, CORE_T, 1
 
 
 def work_items(tier):
     """The complete ordered list of work items: (cfg, chunk of -w subsets or None)."""
-    d_all, d_core = bounds(tier)
-    core_alts = {k: ALTS[k] for k in CORE}
+    d_all, d_core, core_dims, d_w = bounds(tier)
     cfgs = []
     for k, cfg in core.deviations(DEFAULT, ALTS, d_all):
         cfgs.append((k, cfg))
-    for k, cfg in core.deviations(DEFAULT, core_alts, d_core):
-        if k > d_all:
-            cfgs.append((k, cfg))
+    if d_core > d_all:
+        core_alts = {k: ALTS[k] for k in core_dims}
+        for k, cfg in core.deviations(DEFAULT, core_alts, d_core):
+            if k > d_all:
+                cfgs.append((k, cfg))
     subsets = w_subsets()
     chunks = [subsets[i:i + 8] for i in range(0, len(subsets), 8)]
     items = []
+    # -w is one more dimension (31 alternative values): it deviates together with at most d_w other dimensions.
+    # Each chunk of subsets is judged against the complete tree of the same configuration, written first.
     for k, cfg in cfgs:
-        items.append((cfg, None))
-    # -w is one more dimension: it may deviate when the rest deviates in at most d_all - 1 dimensions
-    for k, cfg in cfgs:
-        if k <= d_all - 1:
+        if k == 0:
+            items.append((cfg, None))
             for ch in chunks:
                 items.append((cfg, ch))
+    for k, cfg in cfgs:
+        if k > 0:
+            items.append((cfg, None))
+            if k <= d_w:
+                for ch in chunks:
+                    items.append((cfg, ch))
     return items
 
 
@@ -579,32 +592,37 @@ class Case:
         def fname(address):
             return P['CodeFiles'].format(address=address)
 
-        def add(path, cat, letter):
+        owner = {}          # path -> id of the disassembly the page belongs to
+        anchor_owner = {}   # address anchor -> ids of the disassemblies that have an instruction there
+
+        def add(path, cat, letter, code='main'):
             path = posixpath.normpath(path)
             html[path] = (cat, letter)
+            owner[path] = code
             ids.setdefault(path, {})
             return path
 
-        def asm(entries, code_path, single_path, cat, letter):
+        def asm(entries, code_path, single_path, cat, letter, code='main'):
             for addr, ins in entries:
                 if single:
-                    page = add(single_path, cat + '1', letter)
+                    page = add(single_path, cat + '1', letter, code)
                 else:
-                    page = add(posixpath.join(code_path, fname(addr)), cat, letter)
+                    page = add(posixpath.join(code_path, fname(addr)), cat, letter, code)
                 for i, (a, ctl, _) in enumerate(ins):
                     role = 'entry' if i == 0 else ('entry_point' if ctl == '*' else 'instruction')
                     ids[page][A(a)] = role
+                    anchor_owner.setdefault(A(a), set()).add(code)
                 ids[page]['n{}'.format(addr)] = 'named'
 
         asm(main_entries, P['CodePath'], P['AsmSinglePage'], 'asm', 'd')
-        asm(other_entries, P['other-CodePath'], P['other-AsmSinglePage'], 'oasm', 'o')
+        asm(other_entries, P['other-CodePath'], P['other-AsmSinglePage'], 'oasm', 'o', 'other')
         if cfg['other'] == 'two':
-            asm(aux_entries, P['aux2-CodePath'], P['aux2-AsmSinglePage'], 'oasm', 'o')
+            asm(aux_entries, P['aux2-CodePath'], P['aux2-AsmSinglePage'], 'oasm', 'o', 'aux2')
         types = {e[1][0][1]: 1 for e in main_entries}
 
-        def mapp(page_id, members, cat='map', letter='m'):
+        def mapp(page_id, members, cat='map', letter='m', code='main'):
             if members:
-                page = add(P[page_id], cat, letter)
+                page = add(P[page_id], cat, letter, code)
                 for addr, ins in members:
                     ids[page][A(addr)] = 'map_entry'
 
@@ -619,9 +637,9 @@ class Case:
             mapp('Custom', [e for e in main_entries if e[0] in (E1, E2)])
         else:
             mapp('Custom', [e for e in main_entries if e[1][0][1] in 'cb'])
-        mapp('other-Index', other_entries, 'oindex', 'o')
+        mapp('other-Index', other_entries, 'oindex', 'o', 'other')
         if cfg['other'] == 'two':
-            mapp('aux2-Index', aux_entries, 'oindex', 'o')
+            mapp('aux2-Index', aux_entries, 'oindex', 'o', 'aux2')
         add(P['P1'], 'page', 'P')
         page = add(P['Box'], 'box', 'P')
         ids[page].update({'b1': 'box_entry', 'title__two_': 'box_entry'})
@@ -635,6 +653,8 @@ class Case:
         add(P['GameIndex'], 'index', 'i')
         self.html = html
         self.ids = ids
+        self.owner = owner
+        self.anchor_owner = anchor_owner
         self.entry_anchors = {A(e[0]) for e in main_entries + other_entries + aux_entries}
 
     def args(self, outdir, w=W_FULL):
@@ -726,7 +746,12 @@ class Walker(HTMLParser):
         for attr in ('href', 'src'):
             v = d.get(attr)
             if v is not None:
-                self.refs.append((tag, attr, v, self.getpos()[0]))
+                cell = ''
+                for t, c in reversed(self.stack):
+                    if t in ('td', 'th', 'li'):
+                        cell = c
+                        break
+                self.refs.append((tag, attr, v, self.getpos()[0], cell))
         if push and tag not in VOID:
             self.stack.append((tag, cls))
 
@@ -793,15 +818,17 @@ class Tree:
                     w.feed(f.read())
                 w.close()
                 self.pages[rel] = w
-
-    def digest(self):
+        # digest of the whole tree (computed now: the directory is removed after the run)
         h = hashlib.sha256()
         for rel in self.disk:
             h.update(rel.encode() + b'\0')
-            with open(os.path.join(self.root, rel), 'rb') as f:
+            with open(os.path.join(root, rel), 'rb') as f:
                 h.update(hashlib.sha256(f.read()).digest())
         h.update(repr((self.rc, sorted(self.logged))).encode())
-        return h.hexdigest()
+        self._digest = h.hexdigest()
+
+    def digest(self):
+        return self._digest
 
 
 _seq = [0]
@@ -844,7 +871,7 @@ def check_tree(case, tree, w=W_FULL, full=None, counters=None):
     cfg = case.cfg
     out = []
     mode = 'single_page' if single_page(cfg) else 'multi_page'
-    base_tags = {'mode': mode, 'w': w}
+    base_tags = {'mode': mode, 'w': w, 'case': label_of(cfg)}
 
     def bad(kind, cause, detail, **tags):
         t = dict(base_tags)
@@ -857,7 +884,8 @@ def check_tree(case, tree, w=W_FULL, full=None, counters=None):
             counters[name] += 1
 
     if tree.rc:
-        bad('tool_failed', 'rc{}'.format(tree.rc), 'skool2html failed on documented input: {} {}'.format(tree.exc, tree.err.strip()[-300:]))
+        bad('tool_failed', str(tree.exc).split(':')[0], 'skool2html failed on documented input: {} {}'.format(tree.exc, tree.err.strip()[-300:]),
+            box=cfg['box'], boxlink=cfg['boxlink'], error=str(tree.exc)[:120])
         return out
     for path in tree.outside:
         bad('write_outside', 'outside', 'file written outside the output directory: {}'.format(path))
@@ -921,7 +949,7 @@ def check_tree(case, tree, w=W_FULL, full=None, counters=None):
     for p in sorted(tree.pages):
         wk = tree.pages[p]
         pcat = case.html.get(p, ('unknown', ''))[0]
-        for tag, attr, url, line in wk.refs:
+        for tag, attr, url, line, cell in wk.refs:
             if _is_external(url):
                 count('external')
                 continue
@@ -944,8 +972,12 @@ def check_tree(case, tree, w=W_FULL, full=None, counters=None):
                     if ids_here is None:
                         bad('fragment_on_asset', what, '{}:{}: {}="{}": fragment on a non-HTML file'.format(p, line, attr, url), page=pcat)
                     elif frag not in ids_here:
+                        owners = case.anchor_owner.get(frag, ())
                         bad('broken_fragment', '{}>{}'.format(pcat, tcat), '{}:{}: {}="{}": no id "{}" in {}'.format(p, line, attr, url, frag, target),
-                            page=pcat, target=tcat, same_page=(target == p))
+                            page=pcat, target=tcat, same_page=(target == p), where='operand' if cell == 'instruction' else 'text',
+                            # the fragment is the address anchor of an instruction of another disassembly than the target page's
+                            fragment_of_other_disassembly=bool(owners) and case.owner.get(target) not in owners,
+                            anchor=cfg['anchor'])
                     else:
                         count('{}>{}#'.format(pcat, tcat) if target != p else '{}>self#'.format(pcat))
                 else:
@@ -1049,21 +1081,24 @@ REQUIRED = [
     'map>asm', 'map>asm1#', 'map>index', 'index>map', 'index>oindex', 'index>page', 'index>box',
     'page>asm', 'page>asm#', 'page>map#', 'page>box#', 'page>img.src', 'page>audio.src', 'page>script.src',
     'box>self#', 'box>asm', 'box>box#', 'box>img.src',
+    'oindex>asm1#', 'oindex>oasm1#', 'page>oasm#', 'map>oasm#', 'asm1>oindex#', 'index>img.src', 'index>script.src', 'oasm>script.src',
 ]
 
 
 def run(tier, seed):
     stats = core.run_shards(_shard, tier, seed, prop=PROPERTY)
-    d_all, d_core = bounds(tier)
+    d_all, d_core, core_dims, d_w = bounds(tier)
+    nalt = sum(len(v) for v in ALTS.values())
+    core_txt = '' if d_core <= d_all else '; <= {} over the {} link-forming core dimensions ({})'.format(d_core, len(core_dims), ','.join(core_dims))
     meta = dict(
         rule='cases = deviations from the default (skool shape x ref file x options) configuration: <= {} over all {} dimensions '
-             '({} alternative values), <= {} over the {} link-forming core dimensions; -w is one more dimension, all 31 proper subsets '
-             'of dimoP run against the complete tree of the same configuration; every case = one skool2html.main tree (main + other '
-             'code, ~14-20 pages) walked completely; non-trivial = any deviation from the default; states = distinct (file set, per-page '
-             'reference set) outcomes'.format(d_all, len(DEFAULT), sum(len(v) for v in ALTS.values()), d_core, len(CORE)),
+             '({} alternative values){}; -w is one more dimension: all 31 proper subsets of dimoP for every configuration with <= {} other '
+             'deviations, each judged against the complete tree of the same configuration; every case = one skool2html.main tree (main + '
+             'secondary disassemblies, 14-25 pages, 150-250 references) walked completely; non-trivial = any deviation from the default; '
+             'states = distinct (file set, per-page reference set) outcomes'.format(d_all, len(DEFAULT), nalt, core_txt, d_w),
         exhaustive=True,
-        bound='deviations d <= {} (all dimensions) and d <= {} (core dimensions {}); all 31 -w subsets for every configuration with '
-              '<= {} other deviations'.format(d_all, d_core, ','.join(CORE), d_all - 1),
+        bound='deviations d <= {} over all dimensions{}; all 31 -w subsets for every configuration with <= {} other deviations'.format(
+            d_all, core_txt, d_w),
         assumptions=[
             '#R is aimed only at instruction addresses (an address that is not an instruction is the documented error "Address not found"); '
             'operands may address anything',
